@@ -46,7 +46,7 @@ func stackDepth() int {
 
 // dtlcpFrames counts, on the calling goroutine's stack, the frames of dtlcp.(*Conn).readDatagram (a
 // recursion before fix 593205a) and of dtlcp.(*Conn).readRecordOrCCS (re-entered through
-// retryReadRecord for every warning alert).
+// retryReadRecord for every warning alert before fix bfc7028).
 func dtlcpFrames() (rd, rr int) {
 	var pcs [8192]uintptr
 	n := runtime.Callers(0, pcs[:])
